@@ -151,27 +151,27 @@ Proof.
 Qed.
 
 (* what promote_call computes, unfolded once *)
-Lemma promote_call_inv : forall c ops,
-  promote_call c = Some ops ->
+Lemma promote_call_inv : forall named c ops,
+  promote_call named c = Some ops ->
   exists ps slots tps,
     A.positions (tc_schema c) (List.length (tc_args c)) = A.OK ps /\
     List.length ps = List.length (tc_args c) /\
     slots_of c = A.OK slots /\ map snd slots = ps /\
     tps = combine (tc_args c) (map snd slots) /\ map erase tps = slots /\
-    A.promote_builder (tc_schema c) (map arg_of (tc_args c)) =
-      A.OK (A.cast_inputs (A.dtype * bool) A.out A.p_bkey A.info_builder A.cast_builder true slots) /\
-    conv_all tps tps (A.cast_inputs (A.dtype * bool) A.out A.p_bkey A.info_builder A.cast_builder true slots) = Some ops.
+    A.promote_builder_v named (tc_schema c) (map arg_of (tc_args c)) =
+      A.OK (A.cast_inputs (A.dtype * bool) A.out A.p_bkey A.info_builder (A.cast_builder_v named) true slots) /\
+    conv_all tps tps (A.cast_inputs (A.dtype * bool) A.out A.p_bkey A.info_builder (A.cast_builder_v named) true slots) = Some ops.
 Proof.
-  intros c ops H. unfold promote_call in H. rewrite map_length in H.
+  intros named c ops H. unfold promote_call in H. rewrite map_length in H.
   destruct (A.positions (tc_schema c) (List.length (tc_args c))) as [ps|] eqn:Hpos; [|discriminate].
-  destruct (A.promote_builder (tc_schema c) (map arg_of (tc_args c))) as [outs|] eqn:Hpb; [|discriminate].
+  destruct (A.promote_builder_v named (tc_schema c) (map arg_of (tc_args c))) as [outs|] eqn:Hpb; [|discriminate].
   pose proof (AP.positions_length _ _ _ Hpos) as Hlen.
   assert (Hann : slots_of c = A.OK (combine (map arg_of (tc_args c)) ps)).
   { unfold slots_of, A.annotate. rewrite map_length, Hpos. reflexivity. }
   assert (Hsnd : map snd (combine (map arg_of (tc_args c)) ps) = ps).
   { apply AP.combine_snd. rewrite map_length. exact Hlen. }
   exists ps, (combine (map arg_of (tc_args c)) ps), (combine (tc_args c) ps).
-  unfold A.promote_builder in Hpb. unfold slots_of in Hann. rewrite Hann in Hpb. cbn [A.bind] in Hpb.
+  unfold A.promote_builder_v in Hpb. unfold slots_of in Hann. rewrite Hann in Hpb. cbn [A.bind] in Hpb.
   inversion Hpb; subst outs.
   repeat split; auto.
   - rewrite Hsnd. reflexivity.
@@ -179,15 +179,15 @@ Proof.
 Qed.
 
 (* ------------------------------------------------------------------ (a) the derived operands *)
-Theorem promoted_constant_dtype_by_spec : forall c ops,
+Theorem promoted_constant_dtype_by_spec : forall named c ops,
   A.schema_okb (tc_schema c) = true ->
-  promote_call c = Some ops ->
+  promote_call named c = Some ops ->
   exists slots tps,
     slots_of c = A.OK slots /\ tps = combine (tc_args c) (map snd slots) /\
     List.length ops = List.length (tc_args c) /\
     (forall i id d kn, nth_error (tc_args c) i = Some (TVal id d kn) -> nth_error ops i = Some (OVal id)) /\
     (forall i, nth_error (tc_args c) i = Some TNone -> nth_error ops i = Some ONone) /\
-    (forall i t, nth_error (tc_args c) i = Some (TLit t) ->
+    (forall i t, nth_error (tc_args c) i = Some (TLit t) -> A.plainb (tl_lit t) = true ->
        exists pre p post,
          slots = pre ++ (A.ALit (tl_lit t), p) :: post /\ List.length pre = i /\
          match binder tps p with
@@ -201,8 +201,8 @@ Theorem promoted_constant_dtype_by_spec : forall c ops,
              A.spec_dtype (pre ++ post) (tl_lit t) p (A.default_dtype (tl_lit t))
          end).
 Proof.
-  intros c ops Hs Hp.
-  destruct (promote_call_inv c ops Hp) as [ps [slots [tps [Hpos [Hlen [Hann [Hsnd [Htps [Her [Hpb Hconv]]]]]]]]]].
+  intros named c ops Hs Hp.
+  destruct (promote_call_inv named c ops Hp) as [ps [slots [tps [Hpos [Hlen [Hann [Hsnd [Htps [Her [Hpb Hconv]]]]]]]]]].
   destruct (conv_all_spec _ _ _ _ Hconv) as [Hl Hn].
   assert (Hlt : List.length tps = List.length (tc_args c)).
   { subst tps. rewrite Hsnd, combine_length, Hlen. apply Nat.min_id. }
@@ -214,24 +214,25 @@ Proof.
     unfold conv in Hc; cbn [fst] in Hc. destruct o; try discriminate. inversion Hc; subst. exact Hop.
   - intros i Hi. destruct (Hat i _ Hi) as [p Hp']. destruct (Hn i _ Hp') as [o [op [_ [Hop Hc]]]].
     unfold conv in Hc; cbn [fst] in Hc. destruct o; try discriminate. inversion Hc; subst. exact Hop.
-  - intros i t Hi. destruct (Hat i _ Hi) as [p Hp']. destruct (Hn i _ Hp') as [o [op [Ho [Hop Hc]]]].
+  - intros i t Hi Hplain. destruct (Hat i _ Hi) as [p Hp']. destruct (Hn i _ Hp') as [o [op [Ho [Hop Hc]]]].
     assert (Hsl : nth_error slots i = Some (A.ALit (tl_lit t), p)).
     { rewrite <- Her. apply (map_nth_error erase) in Hp'. exact Hp'. }
     destruct (nth_error_split _ _ Hsl) as [pre [post [Esl Hpre]]].
     exists pre, p, post. split; [exact Esl|]. split; [exact Hpre|].
     (* what C12's model returns at this position *)
-    assert (Ho' : o = A.cast_builder (A.ALit (tl_lit t)) (option_map proj_binder (binder tps p))).
+    assert (Ho' : o = A.cast_builder_v named (A.ALit (tl_lit t)) (option_map proj_binder (binder tps p))).
     { unfold A.cast_inputs in Ho. rewrite Esl in Ho at 2. rewrite <- Hpre in Ho.
       rewrite AP.nth_error_map_mid in Ho. inversion Ho as [Ho2]. unfold A.cast_slot. cbn [fst snd].
       unfold binder. destruct (A.p_bkey p) as [k|]; [|reflexivity].
       rewrite bindings_first. rewrite <- Her. rewrite first_contrib_binder. reflexivity. }
     (* what the specification says about it *)
-    destruct (AP.builder_eq_spec (tc_schema c) (map arg_of (tc_args c)) slots pre post (tl_lit t) p _ Hs Hann Esl Hpb)
+    destruct (AP.builder_eq_spec named (tc_schema c) (map arg_of (tc_args c)) slots pre post (tl_lit t) p _ Hs Hplain Hann Esl Hpb)
       as [o2 [Ho2 [_ [d2 [Hd2 Hspec]]]]].
     assert (Eo : Some o = Some o2) by (rewrite <- Ho, <- Ho2, <- Hpre; reflexivity).
     inversion Eo; subst o2. clear Eo Ho2.
     unfold conv in Hc. cbn [fst snd] in Hc.
-    destruct (binder tps p) as [[[id d] kn]|] eqn:Hb; cbn [option_map proj_binder fst snd A.cast_builder] in Ho'.
+    unfold A.cast_builder_v in Ho'. rewrite (AP.plainb_ok _ Hplain), (AP.plainb_builder_default _ Hplain) in Ho'. cbn [orb] in Ho'.
+    destruct (binder tps p) as [[[id d] kn]|] eqn:Hb; cbn [option_map proj_binder fst snd] in Ho'.
     + destruct kn; subst o; cbn in Hd2; inversion Hd2; subst d2; cbn in Hc; try rewrite Hb in Hc; cbn in Hc;
         inversion Hc; subst op; split; assumption.
     + subst o. cbn in Hd2; inversion Hd2; subst d2. cbn in Hc. inversion Hc; subst op. split; assumption.
@@ -303,16 +304,17 @@ Section Read.
   (* the operands creplay reads at a derived call = the typed reading: each literal is the constant of the
      element type C12's specification assigns (spec_fn), or that constant's Python-typed twin cast at run
      time to the binding sibling when the sibling's type is unknown at construction time *)
-  Lemma derived_reads_typed : forall c slots ops,
+  Lemma derived_reads_typed : forall named c slots ops,
     A.schema_okb (tc_schema c) = true -> slots_of c = A.OK slots -> A.uniform slots ->
-    promote_call c = Some ops ->
+    all_plain c = true ->
+    promote_call named c = Some ops ->
     forall E, cargs V sem lit_val E ops = targs V sem tensor E c.
   Proof.
-    intros c slots ops Hs Hann Hu Hp E.
-    destruct (promoted_constant_dtype_by_spec c ops Hs Hp) as [slots' [tps [Hann' [Htps [Hl [Hv [Hnn Hlit]]]]]]].
+    intros named c slots ops Hs Hann Hu Hpl Hp E.
+    destruct (promoted_constant_dtype_by_spec named c ops Hs Hp) as [slots' [tps [Hann' [Htps [Hl [Hv [Hnn Hlit]]]]]]].
     rewrite Hann in Hann'. inversion Hann'; subst slots'. clear Hann'.
     unfold targs. rewrite Hann. cbv zeta. rewrite <- Htps.
-    destruct (promote_call_inv c ops Hp) as [ps [slots2 [tps2 [_ [Hlen [Hann2 [Hsnd [Htps2 _]]]]]]]].
+    destruct (promote_call_inv named c ops Hp) as [ps [slots2 [tps2 [_ [Hlen [Hann2 [Hsnd [Htps2 _]]]]]]]].
     rewrite Hann in Hann2. inversion Hann2; subst slots2. clear Hann2.
     assert (Hlt : List.length tps = List.length (tc_args c)).
     { subst tps. rewrite Hsnd, combine_length, Hlen. apply Nat.min_id. }
@@ -322,7 +324,9 @@ Section Read.
     { subst tps. eapply nth_error_combine_fst; eauto. }
     destruct ta as [id d kn|t|]; unfold tread1; cbn [fst snd].
     - exists (OVal id). split; [eapply Hv; eauto|]. reflexivity.
-    - destruct (Hlit i t Hta) as [pre [p' [post [Esl [Hpre Hm]]]]].
+    - assert (Hplain : A.plainb (tl_lit t) = true).
+      { unfold all_plain in Hpl. rewrite forallb_forall in Hpl. apply (Hpl (TLit t)). eapply nth_error_In; eauto. }
+      destruct (Hlit i t Hta Hplain) as [pre [p' [post [Esl [Hpre Hm]]]]].
       assert (p' = p).
       { assert (Hs1 : nth_error (map snd slots) i = Some p').
         { rewrite Esl, map_app, <- Hpre, <- (map_length snd pre), nth_error_app2, Nat.sub_diag; [reflexivity|lia]. }
@@ -347,13 +351,13 @@ Section Read.
   Qed.
 
   Definition reads_typed (args : list operand) : Prop :=
-    exists c slots, A.schema_okb (tc_schema c) = true /\ slots_of c = A.OK slots /\ A.uniform slots /\
-                    promote_call c = Some args /\
+    exists named c slots, A.schema_okb (tc_schema c) = true /\ slots_of c = A.OK slots /\ A.uniform slots /\
+                    all_plain c = true /\ promote_call named c = Some args /\
                     forall E, cargs V sem lit_val E args = targs V sem tensor E c.
 
   Lemma derived_reads : forall args, derived args -> reads_typed args.
   Proof.
-    intros args [c [slots [Hs [Ha [Hu Hp]]]]]. exists c, slots. repeat split; auto.
+    intros args [named [c [slots [Hs [Ha [Hu [Hpl Hp]]]]]]]. exists named, c, slots. repeat split; auto.
     eapply derived_reads_typed; eauto.
   Qed.
 End Read.
@@ -444,31 +448,31 @@ Definition half := A.LScalar (A.SFloat false 1 1).
 
 (* Add(x: float known, 2) -> a float32 constant *)
 Example ex_add_known :
-  promote_call (TC (s_of "Add") [TVal 0 A.FLOAT true; TLit (tl two "const_2_f32" "const_2_f32" "():00000040")]) =
+  promote_call true (TC (s_of "Add") [TVal 0 A.FLOAT true; TLit (tl two "const_2_f32" "const_2_f32" "():00000040")]) =
   Some [OVal 0; OLit (Lit "const_2_f32" (LNFixed "const_2_f32") "float32:():00000040")].
 Proof. vm_compute. reflexivity. Qed.
 
 (* Add(x: unknown, 2) -> CastLike(int64 constant, x) *)
 Example ex_add_unknown :
-  promote_call (TC (s_of "Add") [TVal 3 A.FLOAT false; TLit (tl two "const_2_i64" "const_2_i64" "():0200000000000000")]) =
+  promote_call true (TC (s_of "Add") [TVal 3 A.FLOAT false; TLit (tl two "const_2_i64" "const_2_i64" "():0200000000000000")]) =
   Some [OVal 3; OLitCast (Lit "const_2_i64" (LNFixed "const_2_i64") "int64:():0200000000000000") 3].
 Proof. vm_compute. reflexivity. Qed.
 
 (* Max (homogeneous variadic): literals at the first, a middle and a tail position; the FIRST value binds:
    v5 (unknown) before v1 (known) -> CastLike to v5; v1 before v5 -> float32 constants *)
 Example ex_max_positions :
-  promote_call (TC (s_of "Max") [TLit (tl two "a" "a" "p"); TVal 5 A.FLOAT false; TLit (tl half "b" "b" "q"); TVal 1 A.FLOAT true;
+  promote_call true (TC (s_of "Max") [TLit (tl two "a" "a" "p"); TVal 5 A.FLOAT false; TLit (tl half "b" "b" "q"); TVal 1 A.FLOAT true;
                                  TLit (tl (A.LScalar (A.SBool true)) "c" "c" "r")]) =
   Some [OLitCast (Lit "a" (LNFixed "a") "int64:p") 5; OVal 5; OLitCast (Lit "b" (LNFixed "b") "float32:q") 5; OVal 1;
         OLitCast (Lit "c" (LNFixed "c") "bool:r") 5] /\
-  promote_call (TC (s_of "Max") [TLit (tl two "a" "a" "p"); TVal 1 A.FLOAT true; TVal 5 A.FLOAT false;
+  promote_call true (TC (s_of "Max") [TLit (tl two "a" "a" "p"); TVal 1 A.FLOAT true; TVal 5 A.FLOAT false;
                                  TLit (tl (A.LScalar (A.SBool true)) "c" "c" "r")]) =
   Some [OLit (Lit "a" (LNFixed "a") "float32:p"); OVal 1; OVal 5; OLit (Lit "c" (LNFixed "c") "float32:r")].
 Proof. split; vm_compute; reflexivity. Qed.
 
 (* Loop (heterogeneous variadic v_initial): the trip count is int64, the carried literals keep their Python type *)
 Example ex_loop_hetero :
-  promote_call (TC (s_of "Loop") [TLit (tl two "t" "t" "p"); TNone; TVal 0 A.FLOAT true; TLit (tl two "a" "a" "q");
+  promote_call true (TC (s_of "Loop") [TLit (tl two "t" "t" "p"); TNone; TVal 0 A.FLOAT true; TLit (tl two "a" "a" "q");
                                   TLit (tl half "b" "b" "r"); TLit (tl (A.LList (A.SBool true) [A.SBool false]) "c" "c" "s")]) =
   Some [OLit (Lit "t" (LNFixed "t") "int64:p"); ONone; OVal 0; OLit (Lit "a" (LNFixed "a") "int64:q");
         OLit (Lit "b" (LNFixed "b") "float32:r"); OLit (Lit "c" (LNFixed "c") "bool:s")].
@@ -476,11 +480,24 @@ Proof. vm_compute. reflexivity. Qed.
 
 (* no tensor sibling: Reshape's shape (concrete type string), Where with two literals *)
 Example ex_no_sibling :
-  promote_call (TC (s_of "Reshape") [TVal 0 A.FLOAT true; TLit (tl (A.LList (A.SInt (-1)) []) "s" "s" "p")]) =
+  promote_call true (TC (s_of "Reshape") [TVal 0 A.FLOAT true; TLit (tl (A.LList (A.SInt (-1)) []) "s" "s" "p")]) =
   Some [OVal 0; OLit (Lit "s" (LNFixed "s") "int64:p")] /\
-  promote_call (TC (s_of "Where") [TVal 0 A.BOOL true; TLit (tl half "a" "a" "p"); TLit (tl half "a" "a" "p")]) =
+  promote_call true (TC (s_of "Where") [TVal 0 A.BOOL true; TLit (tl half "a" "a" "p"); TLit (tl half "a" "a" "p")]) =
   Some [OVal 0; OLit (Lit "a" (LNFixed "a") "float32:p"); OLit (Lit "a" (LNFixed "a") "float32:p")].
 Proof. split; vm_compute; reflexivity. Qed.
+
+(* a literal that is NOT plain (a list mixing int and float leaves the builder's cached path): as read the builder
+   raised (no derived operands), after repo fix 4f6059b it promotes it with the dtype ir.tensor infers; the two
+   variants agree on plain literals, to which the theorems are restricted *)
+Example ex_not_plain :
+  let mixed := A.LList (A.SFloat false 3 1) [A.SInt 2] in
+  A.plainb mixed = false /\
+  promote_call false (TC (s_of "Add") [TVal 0 A.FLOAT true; TLit (tl mixed "k" "k" "p")]) = None /\
+  promote_call true (TC (s_of "Add") [TVal 0 A.FLOAT true; TLit (tl mixed "k" "k" "p")]) =
+  Some [OVal 0; OLit (Lit "k" (LNFixed "k") "float32:p")] /\
+  promote_call false (TC (s_of "Add") [TVal 0 A.FLOAT true; TLit (tl two "k" "k" "p")]) =
+  promote_call true (TC (s_of "Add") [TVal 0 A.FLOAT true; TLit (tl two "k" "k" "p")]).
+Proof. vm_compute. repeat split; reflexivity. Qed.
 
 (* the hypotheses of promoted_constant_dtype_by_spec / derived hold on these calls *)
 Definition ex_call : tcall :=
@@ -502,7 +519,7 @@ Qed.
 Example ex_derived : A.schema_okb (tc_schema ex_call) = true /\ derived ex_ops.
 Proof.
   split; [vm_compute; reflexivity|].
-  exists ex_call. eexists. split; [vm_compute; reflexivity|]. split; [vm_compute; reflexivity|]. split; [|vm_compute; reflexivity].
+  exists true, ex_call. eexists. split; [vm_compute; reflexivity|]. split; [vm_compute; reflexivity|]. split; [|split; vm_compute; reflexivity].
   apply uniform_of_check. intros sl1 sl2 I1 I2.
   cbn in I1, I2.
   destruct I1 as [I1|[I1|[I1|[I1|[]]]]]; destruct I2 as [I2|[I2|[I2|[I2|[]]]]]; subst; cbn; auto.
@@ -529,10 +546,10 @@ Example ex_typed_trace_hyps :
 Proof.
   split; [|split; [vm_compute; reflexivity|split; [reflexivity|vm_compute; reflexivity]]].
   cbn [ex_lit_trace every_calls every_call]. split; [split; [|exact I]|split; [split; [|exact I]|exact I]].
-  - exists ex_add_call. eexists. split; [vm_compute; reflexivity|]. split; [vm_compute; reflexivity|]. split; [|vm_compute; reflexivity].
+  - exists true, ex_add_call. eexists. split; [vm_compute; reflexivity|]. split; [vm_compute; reflexivity|]. split; [|split; vm_compute; reflexivity].
     apply uniform_of_check. intros sl1 sl2 I1 I2. cbn in I1, I2.
     destruct I1 as [I1|[I1|[]]]; destruct I2 as [I2|[I2|[]]]; subst; cbn; auto.
-  - exists ex_mul_call. eexists. split; [vm_compute; reflexivity|]. split; [vm_compute; reflexivity|]. split; [|vm_compute; reflexivity].
+  - exists true, ex_mul_call. eexists. split; [vm_compute; reflexivity|]. split; [vm_compute; reflexivity|]. split; [|split; vm_compute; reflexivity].
     apply uniform_of_check. intros sl1 sl2 I1 I2. cbn in I1, I2.
     destruct I1 as [I1|[I1|[]]]; destruct I2 as [I2|[I2|[]]]; subst; cbn; auto.
 Qed.
